@@ -3,7 +3,7 @@
 
    What is modelled (each follows the REPAIRED code; the `_pinned` variants are the code as it was
    before the fix: commits, kept for the refutation witnesses):
-     strval            util.Base._stringtokenvalue     = the regenerated Gen.Quote.stringtokenvalue
+     strval            util.Base._stringtokenvalue     = the regenerated Gen.StrTokenValue.stringtokenvalue
                        (IndexError on a token with an empty value)
      charset_rule      css/csscharsetrule.py:96-124    reads the token after CHARSET_SYM
      color_fn          css/value.py:401-470            component access raw[0..2], raw[3], 4-tuple unpack
@@ -11,11 +11,11 @@
      parse_loop        util.py:450-493                 token dispatch of _parse
      parse_outcome     parse.py:81-160                 tokenize + top-level dispatch
    Imported: the tokenizer model (shared), Upto.upto (C04's model of _tokensupto2; the two facts
-   C01 needs about it are proved in ParseTotalFacts.v), Quote/Gen.Quote (C03's translator output).
+   C01 needs about it are proved in ParseTotalFacts.v), Quote.v (C03: the Gallina reading of the string operations) + Gen.StrTokenValue (own translator translate/parsetotal.py, reusing C03's translator class).
    Everything a rule object does with the token run it is handed (selectors, values, media
    queries, profiles validation) is NOT modelled: those handlers are Section variables constrained
    by the named hypothesis handlers_total.                                                      *)
-From CssV Require Import Base Regex Gen.Productions Gen.TokTables Tokenizer Quote Gen.Quote Upto.
+From CssV Require Import Base Regex Gen.Productions Gen.TokTables Tokenizer Quote Gen.StrTokenValue Upto.
 Local Open Scope nat_scope.
 
 Inductive exn := IndexError | TypeError | ValueError.
